@@ -821,12 +821,16 @@ impl BuiltInFunction {
                     format!("`{power}` is an invalid power for int bases (valid >= 0)")
                 })?;
 
-                let result: Primitive = match this {
-                    Primitive::Int(i32) => Primitive::BigInt(i32.pow(power_non_fp) as i128),
-                    Primitive::BigInt(i128) => Primitive::BigInt(i128.pow(power_non_fp)),
-                    Primitive::Byte(u8) => Primitive::BigInt(u8.pow(power_non_fp) as i128),
+                let result: Option<i128> = match this {
+                    Primitive::Int(i32) => (*i32 as i128).checked_pow(power_non_fp),
+                    Primitive::BigInt(i128) => i128.checked_pow(power_non_fp),
+                    Primitive::Byte(u8) => (*u8 as i128).checked_pow(power_non_fp),
                     bad => unreachable!("{bad}"),
                 };
+
+                let result = Primitive::BigInt(
+                    result.with_context(|| format!("{this}.pow({power}): operation overflow"))?,
+                );
 
                 Ok((Some(result), None))
             }
